@@ -36,8 +36,8 @@ class Check(BaseCheck):
         specs = [{'campaign': 'sentinels'}]
         if tier == 'quick':
             for i in range(16):
-                specs.append({'campaign': 'pairs', 'draws': 3, 'seed': seed, 'i': i})
-                specs.append({'campaign': 'amp', 'n': 1500, 'seed': seed, 'i': i})
+                specs.append({'campaign': 'pairs', 'draws': 10, 'seed': seed, 'i': i})
+                specs.append({'campaign': 'amp', 'n': 5000, 'seed': seed, 'i': i})
         else:
             for i in range(32):
                 specs.append({'campaign': 'pairs', 'draws': 90, 'seed': seed, 'i': i})
